@@ -144,3 +144,39 @@ def jedi_chain(context):
             out.append('comprehension')
         c = c.parent_context
     return tuple(out)
+
+
+def definition_parents(src):
+    """{(line, col): (name, parent_label)} for definition tokens: def/class names, parameters, plain assignment
+    targets; parent_label = the lexically enclosing def/class ('module' otherwise); for a parameter: its function"""
+    tree = ast.parse(src)
+    toks = [t for t in tokenize.generate_tokens(io.StringIO(src).readline) if t.type == tokenize.NAME]
+    out = {}
+
+    def lex_label(stack):
+        for s in reversed(stack):
+            if isinstance(s, (ast.FunctionDef, ast.AsyncFunctionDef, ast.ClassDef)):
+                return _label(s)
+        return 'module'
+
+    def visit(node, stack):
+        for ch in ast.iter_child_nodes(node):
+            if isinstance(ch, (ast.FunctionDef, ast.AsyncFunctionDef, ast.ClassDef)):
+                kw = [i for i, t in enumerate(toks) if t.start >= (ch.lineno, ch.col_offset)
+                      and t.string in ('def', 'class')][0]
+                out[toks[kw + 1].start] = (ch.name, lex_label(stack))
+                if not isinstance(ch, ast.ClassDef):
+                    a = ch.args
+                    for arg in a.posonlyargs + a.args + a.kwonlyargs + ([a.vararg] if a.vararg else []) + ([a.kwarg] if a.kwarg else []):
+                        out[(arg.lineno, arg.col_offset)] = (arg.arg, _label(ch))
+                visit(ch, stack + [ch])
+            elif isinstance(ch, ast.Lambda) or isinstance(ch, (ast.ListComp, ast.SetComp, ast.DictComp, ast.GeneratorExp)):
+                continue        # parameters / targets of anonymous scopes: not part of the claim
+            else:
+                if isinstance(ch, ast.Assign):
+                    for t in ch.targets:
+                        if isinstance(t, ast.Name):
+                            out[(t.lineno, t.col_offset)] = (t.id, lex_label(stack))
+                visit(ch, stack)
+    visit(tree, [])
+    return out
